@@ -50,8 +50,10 @@ def gen_writes(rng, disc, n, start_index=0, streams=None):
         tok = '@@T%d.%%o@@' % (start_index + k)
         if rng.random() < 0.6:
             tok += '\n'
-        plan.append(C.fault_entry(d, ph, {'a': 'write', 'stream': rng.choice(streams),
-                                          'text': tok}))
+        e = {'a': 'write', 'stream': rng.choice(streams), 'text': tok}
+        if e['stream'].endswith('.buffer') and rng.random() < 0.3:
+            e['hex'] = rng.choice(['fffe', 'c328', 'e282', '80', 'e9e80a'])
+        plan.append(C.fault_entry(d, ph, e))
     return plan
 
 
@@ -72,6 +74,12 @@ def gen_ws(seed, pid, bias):
             if not t.get('deco'):
                 t['idx'] = rng.choice(WEIRD)
                 t['must_fail'] = rng.choice(['AssertionError', 'ValueError'])
+    if rng.random() < bias.get('p_c_raise', 0.0) and world['layers']:
+        # a layer hook that raises at the call itself (see simrt.populate_layers)
+        L = rng.choice(world['layers'])
+        h = rng.choice(['setUp', 'setUp', 'tearDown'])
+        if h not in L['hooks']:
+            L['c_raise'] = [h]
     m = W.Model(world)
     disc = m.discover()
     plan = []
@@ -156,6 +164,8 @@ def unrun_selected(m, spec, res, T):
         hp = host_pid(res, m, lname)
         clos = m.closure(lname)
         excused = any(p == hp and l in clos and h == 'setUp' for p, l, h, _ in T.layer_failures)
+        # (a set-up hook that fails at the call leaves no trace event: known from the world)
+        excused = excused or any('setUp' in (m.layers[l].get('c_raise') or []) for l in clos)
         if excused:
             continue
         for d in tests:
